@@ -33,9 +33,11 @@ CHECKS = {
             "Trusted: VerifLeaderOf accessor (calls the unexported function the term uses), BigNat.tla. All correct nodes compute the same leader because the function is deterministic in (view, ordered committee); behaviour-level acceptance by view is exercised by the cluster checks.",
             "DESIGN.md 5 C18"),
     "C19": ("model_checking",
-            "TLC validation of recorded CalcTimeout values (positivity, base*2^v when it fits int64, monotone in the view) via Timeout.tla/BigNat; trigger state machine part pending",
+            "TLC: Timer.tla trigger state machine model checked (safety + liveness) + TLC validation of traces of the real TimerBasedElectionTrigger (Trace_Timer.tla) + TLC validation of recorded CalcTimeout values (Timeout.tla/BigNat)",
             "Formula part: every recorded CalcTimeout(base, v) of the real trigger (views 0..200, boundary classes up to 2^64-1, bases 1ns..2^63-1) "
-            "is checked by TLC to be positive, equal to base*2^v whenever that fits a Duration, and not smaller than the value for a lower view.",
+            "is checked by TLC to be positive, equal to base*2^v whenever that fits a Duration, and not smaller than the value for a lower view. "
+            "Machine part: Timer.tla (per-arming generations: armed/fired/sent/abandoned/stopped, the two selects of the firing goroutine) is model checked exhaustively; the real trigger runs under a randomised driver "
+            "(register/stop/sleep, prompt/slow/absent reader) and TLC requires for every received trigger an unused arming of exactly that pair at least base*2^view old, at most one trigger per arming, and delivery of a final fresh registration.",
             "Trusted: BigNat.tla; the saturation value itself is not pinned (any positive monotone value is accepted once base*2^v exceeds int64).",
             "DESIGN.md 5 C19"),
     "C01": ("model_checking", 'TLC trace validation (Trace_Cluster.tla over LHNode.tla/LHMessages.tla) of executions of N real nodes under a random adversarial scheduler and directed attack schedules; per-property step formulas', 'Every commit callback of every correct node in every recorded execution is checked by TLC against the chain of first commits per height (c01_fork). Executions: directed attack schedules (lock then Byzantine NEW_VIEW / standalone PREPREPARE / two elections / unauthenticated votes...) and random adversarial schedules (drops, duplicates, reordering, timeouts, ~200 Byzantine message templates incl. equivocation, forged/unsigned/replayed parts, cross-type and cross-view replays, any view/height) on real nodes; each step also conformance-checked against the specification. A fork explained by the known finding H2 (standalone PREPREPARE) is reported as KNOWN-FINDING, any other fork is a violation.', 'Trusted: the harness (HMAC keyring as ground truth for signatures, projection of messages/state, fake SPIs), the verif-tagged gate hook that steps the real WorkerLoop.Run one iteration at a time; coverage is sampled (random adversarial schedules on committees of 4..7 with weights, Byzantine weight <= f, plus directed schedules), not exhaustive. Design-level model checking of LHNode.tla composed with an adversary is added by the MC configs when present.', "DESIGN.md 5 C01"),
